@@ -47,7 +47,8 @@ def main():
         return 2
     known = [k for k in load_known() if k['property'] == prop]
     kn = {k['class_key']: k for k in known if k.get('status', 'known') == 'known'}
-    rdir = os.path.join(HERE, 'replays', prop)
+    alt = os.path.realpath(engine.TREE) != '/repo'     # a scratch tree: never touch the committed evidence
+    rdir = os.path.join(HERE, 'replays-alt' if alt else 'replays', prop)
     if os.path.isdir(rdir):
         shutil.rmtree(rdir)
     new = []
@@ -97,7 +98,7 @@ def main():
               'VERIF_SEED is recorded but unused: the checks make no random choice',
               'tree under test: ' + engine.TREE],
           'wall_s': round(time.time() - t0, 2), 'violations': len(new)}
-    if not a.no_evidence and not a.only:
+    if not a.no_evidence and not a.only and not alt:
         os.makedirs(os.path.join(HERE, 'evidence'), exist_ok=True)
         tmp = os.path.join(HERE, 'evidence', prop + '.json.tmp')
         json.dump(ev, open(tmp, 'w'), indent=1)
